@@ -25,7 +25,7 @@ func chainConfig_RF(mode string) *params.ChainConfig {
 	}
 }
 
-func vmConfig_RF(tr *tracer_RF) vm.Config {
+func vmConfig_RF(tr *tracer_RF, gas uint64) vm.Config {
 	c := vm.Config{}
 	if tr != nil {
 		c.Debug = true
